@@ -218,6 +218,21 @@ def new_input(seed, bm, spec, v):
         return bm[(spec['cls'], spec['label'])](v)[1][0]
 
 
+def bad_input(obj, kind):
+    """an input the analyzer may refuse, made from the one it holds: a 1-d series, a single channel, three samples"""
+    ts, _ = oc.nt()
+    x = obj.__dict__.get('input')
+    d = np.asarray(x.data) if x is not None else np.asarray(obj.data)
+    rate = x.sampling_rate if x is not None else obj.sampling_rate
+    if kind == '1d':
+        d = d.reshape(-1)[:d.shape[-1]]
+    elif kind == 'onech':
+        d = d.reshape((-1, d.shape[-1]))[:1]
+    else:
+        d = d[..., :3]
+    return ts.TimeSeries(d.copy(), sampling_rate=rate)
+
+
 def _hash_read(obj, g):
     v, err = oc.read_result(obj, g)
     return v, (('err ' + err) if err else oc.hv(v))
@@ -269,7 +284,7 @@ def global_snapshot(extra_classes=()):
                 classes[id(c)] = c
     for c in classes.values():
         for n, v in list(vars(c).items()):
-            if n in ('__dict__', '__weakref__', '__doc__', '__module__'):
+            if n.startswith('__') and n.endswith('__'):      # python's own bookkeeping (copyreg caches `__slotnames__` on the class)
                 continue
             snap['class %s.%s' % (c.__name__, n)] = _token(v)
     return snap
@@ -311,6 +326,22 @@ def serve_session(req):
                     rec['stored'] = g in obj.__dict__ and obj.__dict__[g] is v
                     rec['memo'] = (not was) or (old is v)
                     handed.append([o, g, v, h, len(recs)])
+            elif k == 'c':
+                import copy as _copy
+                o, src = op[1], op[2]
+                objs[o] = {'obj': _copy.copy(objs[src]['obj']), 'spec': dict(objs[src]['spec'])}
+                rec['cls'] = type(objs[o]['obj']).__name__
+            elif k == 'x':
+                o = op[1]
+                obj = objs[o]['obj']
+                bad = bad_input(obj, op[2])
+                try:
+                    with oc.quiet():
+                        obj.set_input(bad)
+                    rec['refused'] = False
+                except Exception as e:  # noqa
+                    rec['refused'] = True
+                    rec['how'] = common.err_kind(e)
             elif k in ('z', 'i'):
                 o = op[1]
                 obj = objs[o]['obj']
@@ -441,6 +472,8 @@ def states_of(session):
                 cur[op[1]] = dict(op[2])
         elif op[0] == 'i':
             cur[op[1]] = dict(cur[op[1]], variant=op[2])
+        elif op[0] == 'c':
+            cur[op[1]] = dict(cur[op[2]])
         elif op[0] == 'r':
             out.append((i, op[1], Refs.key(cur[op[1]])))
     return out
@@ -456,10 +489,12 @@ def describe(session):
     for op in session['ops']:
         if op[0] == 'n':
             kinds[op[1]] = op[2]
+        elif op[0] == 'c':
+            kinds[op[1]] = kinds[op[2]]
         else:
             sp = kinds[op[1]]
             nm = sp.get('fam') or (KIND_NAME[sp['kind']] if sp['kind'] in ('m', 'b') else ('Own' if sp['kind'] == 'u' else '') + sp['cls'])
-            t = {'r': 'read', 'z': 'reset', 'i': 'set_input'}[op[0]] + ':' + nm
+            t = {'r': 'read', 'z': 'reset', 'i': 'set_input', 'x': 'refused-set_input'}[op[0]] + ':' + nm
             if not parts or parts[-1] != t:
                 parts.append(t)
     return parts
@@ -470,6 +505,9 @@ def judge(session, recs, refs, pre):
     out = []
     st = {i: (o, k) for (i, o, k) in states_of(session)}
     kinds = {op[1]: op[2] for op in session['ops'] if op[0] == 'n'}
+    for op in session['ops']:
+        if op[0] == 'c':
+            kinds[op[1]] = kinds[op[2]]
 
     def nm(o):
         sp = kinds[o]
@@ -478,7 +516,7 @@ def judge(session, recs, refs, pre):
         k = op[0]
         who = nm(op[1])
         if rec.get('err') and k != 'r':
-            out.append(('%s/%s/%s/raises' % (pre, who, {'n': 'construct', 'z': 'reset', 'i': 'set_input'}[k]), '%s raised %s' % (k, rec['err']), i))
+            out.append(('%s/%s/%s/raises' % (pre, who, {'n': 'construct', 'z': 'reset', 'i': 'set_input', 'c': 'copy', 'x': 'refused-set_input'}[k]), '%s raised %s' % (k, rec['err']), i))
             continue
         if k == 'n':
             for g in rec.get('ctor', []):
@@ -486,14 +524,16 @@ def judge(session, recs, refs, pre):
         elif k == 'r':
             ref = refs.value(st[i][1], op[2])
             if ref != 'nonrepro' and rec['h'] != ref:
-                out.append(('%s/%s/%s/differs-from-fresh-process' % (pre, who, op[2]),
+                refused = any(o2[0] == 'x' and o2[1] == op[1] for o2 in session['ops'][:i]) and \
+                    not any(o2[0] == 'i' and o2[1] == op[1] for o2 in session['ops'][max(j for j, o2 in enumerate(session['ops'][:i]) if o2[0] == 'x' and o2[1] == op[1]):i])
+                out.append(('%s/%s/%s/%s' % (pre, who, op[2], 'differs-after-refused-set_input' if refused else 'differs-from-fresh-process'),
                             '`%s` of %s differs from what a newly built object (same input, same parameters) returns in a fresh process%s' % (
                                 op[2], who, ' (here %s, fresh %s)' % (rec['h'], ref) if 'err' in rec['h'] + ref else ''), i))
             if rec.get('stored') is False:
                 out.append(('%s/%s/%s/returned-object-is-not-the-stored-one' % (pre, who, op[2]), 'first read of `%s` returned an object that is not the stored one' % op[2], i))
             if rec.get('memo') is False:
                 out.append(('%s/%s/%s/recomputed-on-repeated-read' % (pre, who, op[2]), 'a repeated read of `%s` returned another object' % op[2], i))
-        else:
+        elif k in ('z', 'i'):
             for g in rec.get('surv', []):
                 out.append(('%s/%s/%s/survives-%s' % (pre, who, g, 'reset' if k == 'z' else 'set_input'),
                             '`%s` of %s is still stored after %s' % (g, who, 'reset()' if k == 'z' else 'set_input()'), i))
@@ -556,6 +596,12 @@ def family_line(pid, session, table, cfg, raising):
     order = sorted(o for o, k in kinds.items() if k != 'f')
     oid = {o: i for i, o in enumerate(order)}
     for op in session['ops']:
+        if op[0] == 'c':
+            kinds[op[1]] = kinds[op[2]]
+            if kinds[op[1]] != 'f':
+                oid[op[1]] = len(oid)
+                toks.append('c%d.%d' % (oid[op[1]], oid[op[2]]))
+            continue
         if op[0] == 'n' or kinds[op[1]] == 'f':
             continue
         if op[0] == 'r':
@@ -574,12 +620,16 @@ def family_impl(session, recs, table, refs):
     carry = 0
     for i, (op, rec) in enumerate(zip(session['ops'], recs)):
         t = 1 if rec.get('glob') else 0
+        if op[0] == 'c':
+            kinds[op[1]] = kinds[op[2]]
         if op[0] == 'n' or kinds[op[1]] == 'f':
             carry |= t           # an effect outside the objects is reported at the next listed step
             continue
         t |= carry
         carry = 0
-        if op[0] == 'r':
+        if op[0] in ('c', 'x'):
+            toks.append('%s:t=%d' % (op[0], t))
+        elif op[0] == 'r':
             ref = refs.value(st[i], op[2])
             h = rec.get('h', 'err ?')
             if h.startswith('err'):
@@ -605,7 +655,10 @@ def cmp_family(impl, model):
             fx, fy = x.split(':'), y.split(':')
             if fx[-1] != fy[-1]:                     # class-level / module-level effect: exactly the model's
                 return False
-            if fx[0].startswith('surv='):
+            if fx[0] in ('c', 'x'):
+                if fx[0] != fy[0]:
+                    return False
+            elif fx[0].startswith('surv='):
                 sx = set(fx[0][5:].split(',')) - {'-'}
                 sy = set(fy[0][5:].split(',')) - {'-'}
                 if not sx <= sy:
@@ -664,6 +717,16 @@ def family_sessions(cls, label, table, rng, flavour, tier, foreign):
         ops = [['n', 0, P(0)], ['r', 0, pub[0]], ['z', 0], ['n', 1, P(1, 'u')], ['r', 1, 'own_total'], ['r', 1, pub[-1]], sw(1, 2), ['r', 1, 'own_total'], ['r', 1, pub[-1]],
                ['z', 1], ['r', 1, 'own_total']]
         S.append({'cls': cls, 'label': label, 'ops': ops, 'tag': 'class-first-then-user'})
+    if has_si:
+        # a shallow copy of an analyzer that has results: re-target the copy, then the original (bookkeeping shared
+        # between the two through the copied instance dict must not let either keep a result)
+        ops = [['n', 0, P(0)]] + [['r', 0, g] for g in some(2)] + [['c', 1, 0], ['i', 1, 2], ['i', 0, 3]]
+        ops += [['r', 0, g] for g in perm(pub)] + [['r', 1, g] for g in some(3)] + [['c', 2, 1], ['z', 2]] + [['r', 2, g] for g in some(2)] + [['r', 1, g] for g in some(2)]
+        S.append({'cls': cls, 'label': label, 'ops': ops, 'tag': 'copy-then-retarget-both'})
+        # inputs the analyzer may REFUSE (1-d, one channel, three samples): after a refused set_input it answers as before
+        ops = [['n', 0, P(0)]] + [['r', 0, g] for g in some(2)] + [['x', 0, '1d']] + [['r', 0, g] for g in perm(pub)]
+        ops += [['x', 0, 'onech']] + [['r', 0, g] for g in some(3)] + [['i', 0, 3], ['x', 0, 'short']] + [['r', 0, g] for g in perm(pub)]
+        S.append({'cls': cls, 'label': label, 'ops': ops, 'tag': 'refused-set-input'})
     # two live objects of the class on different inputs + a sibling analyzer, everything interleaved
     nrand = (3 if tier == 'thorough' else 1) + (1 if flavour == 'c13' else 0)
     for r in range(nrand):
@@ -779,6 +842,14 @@ def build_cases(pid, flavour, seed, tier, rng):
         s['ops'] = two_ops(s, lambda c: tb[c]['getters'], rng)
         sessions.append(s)
     recs = run_sessions(sessions, seed, tier)
+    # an input that was meant to be refused but was ACCEPTED: the object now holds an input without a reference; the
+    # session is judged up to that step
+    for s, rc in zip(sessions, recs):
+        for i, (op, r) in enumerate(zip(s['ops'], rc)):
+            if op[0] == 'x' and not r.get('refused'):
+                s['ops'] = s['ops'][:i]
+                del rc[i:]
+                break
     nd = needed(sessions)
     refs.need(list(nd), nd)
     refs.need([(c, l, 'p', 0) for (c, l, b, t) in fams])
@@ -848,6 +919,10 @@ def _show_op(op):
         return 'o%d=%s@v%d%s;' % (op[1], nm, sp.get('variant', 0), (',method:' + sp['method']) if 'method' in sp else '')
     if op[0] == 'r':
         return 'o%d.%s;' % (op[1], op[2])
+    if op[0] == 'c':
+        return 'o%d=copy.copy(o%d);' % (op[1], op[2])
+    if op[0] == 'x':
+        return 'o%d.set_input(<%s>) [refused];' % (op[1], op[2])
     return 'o%d.%s;' % (op[1], 'reset()' if op[0] == 'z' else 'set_input(v%d)' % op[2])
 
 
